@@ -1,5 +1,6 @@
 import GoPipeline.Model.Val
 import GoPipeline.Driver.C05
+import GoPipeline.Driver.C15
 open GoPipeline
 
 /-- Generic stateful line loop. -/
@@ -23,6 +24,7 @@ def main (args : List String) : IO UInt32 := do
   match args with
   | ["echo"] => loop echoStep inp out ()
   | ["c05"] => loop DriverC05.step inp out {}
+  | ["c15"] => loop DriverC15.step inp out ()
   | _ => do IO.eprintln "usage: driver <mode>"; return 2
   out.flush
   return 0
